@@ -281,3 +281,53 @@ def state_digest(hist: dict, upto: int) -> str:
     warm = sorted({op[1] for op in hist["ops"][:upto] if op[0] == "obs"})
     h.update(repr((cfgs, warm, hist["ops"][upto][1])).encode())
     return h.hexdigest()
+
+
+# ------------------------------------------------------------------ reference cross-checks (thorough tier)
+
+
+def net_history(hist: dict) -> dict:
+    """Same final configuration, shorter way there: only the last assignment of each setting
+    is kept (registrations are all kept: registries accumulate)."""
+    last = {}
+    for i, op in enumerate(hist["ops"]):
+        if op[0] == "cfg" and op[1].startswith("set."):
+            key = ".".join(op[1].split(".")[:-1])
+            if key == "set.camel_case":
+                key = "set.aliaser"
+            last[key] = i
+    keep = set(last.values())
+    ops = []
+    for i, op in enumerate(hist["ops"]):
+        if op[0] == "cfg" and op[1].startswith("set.") and i not in keep:
+            continue
+        ops.append(op)
+    return {"seed": hist.get("seed", 0), "ops": ops, "fault": None, "block": "net"}
+
+
+def child_final_only(hist: dict) -> list:
+    """cold: all configuration operations, then only the last observation"""
+    last = None
+    for op in hist["ops"]:
+        if op[0] == "cfg":
+            apply_op(op)
+        else:
+            last = op
+    return apply_op(last) if last is not None else ["none"]
+
+
+def subprocess_final(hist: dict) -> list:
+    """The same in a brand-new interpreter (not forked from the zygote)."""
+    import json
+    import os
+    import subprocess
+    import sys
+
+    env = dict(os.environ)
+    env.pop("DST_BOOTED", None)
+    p = subprocess.run([sys.executable, "-B", "-m", "dst.cli", "c09-final"], input=json.dumps(hist),
+                       capture_output=True, text=True, env=env,
+                       cwd=os.path.dirname(os.path.dirname(os.path.dirname(os.path.abspath(__file__)))), timeout=120)
+    if p.returncode != 0:
+        raise proc.HarnessError("fresh interpreter failed: " + p.stderr[-400:])
+    return json.loads(p.stdout.strip().splitlines()[-1])
